@@ -189,7 +189,7 @@ Proof.
       simpl negb. rewrite andb_false_r, bounce1_0.
       (match goal with |- Z (set_bps ?S (upd _ (fun _ => ?Y) _)) => apply (Fin (set_bps S (upd b (fun _ => Y) (bps S))) Y) end); try reflexivity; simpl; try rewrite Zrq; auto.
       * unfold held, pre, sent_items, wt_items. simpl. fold x. rewrite Ei. apply sub_app; [apply sub_refl|apply sub_skip, sub_refl].
-    + destruct d as [|[|d]]; ((match goal with |- Z (set_bps ?S (upd _ (fun _ => ?Y) _)) => apply (Fin (set_bps S (upd b (fun _ => Y) (bps S))) Y) end); try reflexivity; simpl; auto; try discriminate).
+    + simpl is_fin. cbv iota. destruct d as [|[|d]]; ((match goal with |- Z (set_bps ?S (upd _ (fun _ => ?Y) _)) => apply (Fin (set_bps S (upd b (fun _ => Y) (bps S))) Y) end); try reflexivity; simpl; auto; try discriminate).
       * unfold held, pre, sent_items, wt_items. simpl. fold x. rewrite Ew, Ei. rewrite ?app_nil_r. rewrite <- ?app_assoc. simpl. apply sub_refl.
       * unfold pre, sent_items, wt_items in *. simpl. fold x. rewrite Ew in *. rewrite !app_nil_r in *. rewrite app_assoc. apply nomark_app. split; auto. repeat constructor.
       * unfold held, pre, sent_items, wt_items. simpl. fold x. rewrite Ew, Ei. rewrite ?app_nil_r. rewrite <- ?app_assoc. simpl. apply sub_refl.
